@@ -7,7 +7,7 @@
    clause "no (local, remote) pair is listed twice" is refuted by one exotic history (known finding
    C06.no_duplicate_pairs.two_prflx_superseded; witness on the model: Findings/F_C06_two_prflx.v). *)
 From Coq Require Import ZArith Bool List.
-From Ice Require Import Model.AgentTypes Model.AgentCore Gen.Consts Proofs.AgentFrame Proofs.AgentC06 Proofs.AgentC03Sel.
+From Ice Require Import Model.AgentTypes Model.AgentCore Gen.Consts Proofs.AgentFrame Proofs.AgentC06 Proofs.AgentC03Sel Proofs.AgentLoc.
 Import ListNotations.
 Local Open Scope Z_scope.
 
@@ -63,3 +63,14 @@ Theorem C06_ids_unique_and_selected_listed_all_histories : forall cfg lu lp ops,
   InvU s /\ (forall id, s_selected s = Some id -> exists p, In p (s_checklist s) /\ p_id p = id).
 Proof. exact ids_unique_and_selected_listed. Qed.
 Print Assumptions C06_ids_unique_and_selected_listed_all_histories.
+
+(* For every history, while the agent is open: local candidates are pairwise different (a duplicate is refused)
+   and every listed pair was formed from a CURRENT local candidate (the local half of "pairs are formed from
+   the current candidate sets"; the remote half is monitored) *)
+Theorem C06_pairs_from_current_locals_partial : forall cfg lu lp ops,
+  let s := fst (run cfg lu lp ops) in
+  s_closed s = false ->
+  (forall a b, In a (s_locals s) -> In b (s_locals s) -> cand_equal a b = true -> a = b) /\
+  Forall (fun p => In (p_loc p) (s_locals s)) (s_checklist s).
+Proof. exact locals_distinct_and_pairs_from_locals. Qed.
+Print Assumptions C06_pairs_from_current_locals_partial.
